@@ -32,6 +32,8 @@
 (*     the real code has to return at that point (pipeline A).                             *)
 (* Batch record: POMDP instance fields + beliefs (list of weight vectors), machs (list of  *)
 (* machine names), D, DB, ghost (1 iff absorbing states keep arbitrary outgoing rows),      *)
+(* optional alpha (one integer alpha vector, emitted as val / apred), avail may have zeros  *)
+(* (state-dependent action sets: steps only with actions in POMDP!Allowed), and            *)
 (* optional LL (0 = beliefs at the depth bound carry no look-ahead table; used by the      *)
 (* "tiny-mass" cases whose weights are ~10^8, see LeafLA below).                            *)
 EXTENDS POMDP, Json, IOUtils
@@ -90,6 +92,7 @@ HasLA == phase = "live" /\ (LeafLA(M) = 1 \/ Len(hist) < Depth(M))
 \* one call of state_estimator(b, a, o) / state_estimator_vec(b, ai, oi) / next_agentstate(b, a, o)
 FilterStep(a, o) ==
   /\ mach = "filter" /\ phase = "live" /\ Len(hist) < Depth(M)
+  /\ a \in Allowed(M, bv)
   /\ la.act[a].lik[o] > 0
   /\ bv' = la.act[a].filt[o]
   /\ bd' = DictFilter(M, bd, a, o)
@@ -100,6 +103,7 @@ FilterStep(a, o) ==
 \* the same call with an observation of probability zero
 ImpossibleStep(a, o) ==
   /\ mach = "filter" /\ phase = "live" /\ Len(hist) < Depth(M)
+  /\ a \in Allowed(M, bv)
   /\ la.act[a].lik[o] = 0
   /\ bv' = la.act[a].filt[o]           \* the zero vector
   /\ bd' = DictFilter(M, bd, a, o)      \* the empty dictionary
@@ -111,6 +115,7 @@ ImpossibleStep(a, o) ==
 \* one transition of BeliefMDP(pomdp).next_state_dist(b, a) to the successor belief nb
 BeliefMDPStep(a, nb) ==
   /\ mach = "bmdp" /\ phase = "live" /\ Len(hist) < Depth(M)
+  /\ a \in Allowed(M, bv)
   /\ nb \in la.act[a].succ
   /\ bv' = nb
   /\ bd' = DictOf(M, nb)
@@ -130,7 +135,15 @@ LookAhead(m) ==
    obs  |-> [a \in Ac(m) |-> la.act[a].lik],
    pred |-> [a \in Ac(m) |-> la.act[a].pred],
    rw   |-> [a \in Ac(m) |-> la.act[a].rw],
-   succ |-> [a \in Ac(m) |-> {[b |-> nb, w |-> la.act[a].wt[nb]] : nb \in la.act[a].succ}]]
+   succ |-> [a \in Ac(m) |-> {[b |-> nb, w |-> la.act[a].wt[nb]] : nb \in la.act[a].succ}],
+   \* actions available in every supported state: the only ones the real code is run with
+   allowed |-> Allowed(m, bv),
+   \* one alpha vector (optional batch field alpha): value of the belief (over BSum) and of the state
+   \* prediction (over rden); AlphaVectorPolicy.action_value(b, a) = rw/rden + gamma * apred/rden because
+   \* the probability-weighted mean of the posteriors is the prediction (MeanIsPrediction)
+   val   |-> IF "alpha" \in DOMAIN m THEN AlphaValue(m, bv, m.alpha) ELSE 0,
+   bsum  |-> BSum(m, bv),
+   apred |-> [a \in Ac(m) |-> IF "alpha" \in DOMAIN m THEN AlphaValue(m, la.act[a].pred, m.alpha) ELSE 0]]
 Emit ==
   PrintT(ToJson([iid |-> iid, mach |-> mach, b0 |-> b0, hist |-> hist, phase |-> phase,
                  bv |-> bv, bd |-> Pairs(bd),
@@ -156,10 +169,10 @@ BeliefNormalised ==
   /\ phase = "empty" => bv = ZeroVec(M) /\ bd = EmptyDict /\ hist # <<>>
 \* (P4) the predictive observation distribution sums to one
 ObsNormalised ==
-  HasLA => \A a \in Ac(M) : SumTo(la.act[a].lik, M.NO) = la.den
+  HasLA => \A a \in Allowed(M, bv) : SumTo(la.act[a].lik, M.NO) = la.den
 \* (P5) belief-MDP rows are normalised distributions over canonical non-zero beliefs
 BMDPNormalised ==
-  HasLA => \A a \in Ac(M) :
+  HasLA => \A a \in Allowed(M, bv) :
      LET t == la.act[a] IN
      /\ t.succ # {}
      /\ SumSet(t.wt, t.succ) = la.den
@@ -168,7 +181,7 @@ BMDPNormalised ==
 \*      Sum_nb (wt[nb]/den) * nb[n]/BSum(nb) = pred[n]/(BSum(w)*PD)
 \*      wt[nb] is a multiple of BSum(nb) (sum of the gcds of the merged posteriors)
 MeanIsPrediction ==
-  HasLA => \A a \in Ac(M) :
+  HasLA => \A a \in Allowed(M, bv) :
      LET t == la.act[a] IN
      /\ \A nb \in t.succ : t.wt[nb] % BSum(M, nb) = 0
      /\ \A n \in St(M) :
@@ -179,7 +192,7 @@ MeanIsPrediction ==
 AbsorbingClosed ==
   /\ (HasLA \/ phase = "empty") => (la.absb <=> (DOMAIN bd \subseteq ExplAbs(M)))
   /\ (HasLA /\ M.ghost = 0 /\ la.absb) =>
-        \A a \in Ac(M) : la.act[a].rw = 0 /\ \A nb \in la.act[a].succ : BAbsorbing(M, nb)
+        \A a \in Allowed(M, bv) : la.act[a].rw = 0 /\ \A nb \in la.act[a].succ : BAbsorbing(M, nb)
 \* (P8) the table the machines step with is the one defined by the stand-alone operators of POMDP.tla
 \*      (checked at the initial beliefs and after the first step; deeper it is a function of bv anyway)
 TableMatchesDefinitions ==
@@ -189,6 +202,6 @@ TableMatchesDefinitions ==
      /\ \A o \in Ob(M) : la.act[a].lik[o] = Lik(M, bv, a, o) /\ la.act[a].filt[o] = Filter(M, bv, a, o)
 \* instance filter
 InstancesWellFormed ==
-  /\ PWellFormed(M)
+  /\ PWellFormedSD(M)
   /\ \A k \in 1..Len(M.beliefs) : SumTo(M.beliefs[k], M.N) > 0 /\ \A s \in St(M) : M.beliefs[k][s] >= 0
 =============================================================================
